@@ -161,3 +161,41 @@ PROPS['C11'] = {
     'exhaustive_scope': 'all (N, M) <= 6 and the listed boundary pairs',
     'assumptions': COMMON_ASSUME,
 }
+
+PROPS['C07'] = {
+    'level': 'fault_enumeration',
+    'technique': 'exhaustive enumeration of the environment of a collecting call: scripted source (item count x size-hint policy x fusedness x panic at every next() call) against all four collecting entry points on the real code',
+    'parts': [engine_part('scripted-source', 'e_ops', 'C07', shards_quick=4)],
+    'rule': ("N in {0..5,8,16,33} (thorough +6,7,17,100) x produced item count c in 0..=N+3 x size-hint policy in {exact, absent, lower-only, upper-only, loose both, lying low (upper < c), lying high (lower > c), changing between calls} x "
+             "fused / not fused (a non-fused source yields again if polled after its first None, and counts such polls) x entry point in {try_from_iter, from_iter, try_boxed_from_iter, boxed from_iter} x element in {tracked, zero-sized tracked, u32}; "
+             "for each, the fault-free run and one run per next() call index with that call panicking (all policies for N<=5, exact/absent/lying-high otherwise). Oracle: Ok implies c == N and element i is the i-th produced item; c == N with a truthful "
+             "hint implies Ok; otherwise LengthError or the 'expected N items' panic; at most N+1 next() calls; zero polls after the source returned None; every produced item dropped exactly once; an injected source panic propagates. "
+             "A case is one tuple (+ panic index); non-trivial = c > 0 or N > 0."),
+    'exhaustive': True,
+    'exhaustive_scope': 'the listed finite product; every panic index of every listed case',
+    'assumptions': COMMON_ASSUME + ["the documented exclusion is honoured: nothing is required about a source whose hint lies except that Ok still implies exactly N items"],
+}
+PROPS['C08'] = {
+    'level': 'exploration',
+    'technique': 'bounded exhaustive enumeration of (operation, receiver/argument form, element-type combination, N) with recording closures on the real code',
+    'parts': [engine_part('call-order', 'e_ops', 'C08', shards_quick=1)],
+    'rule': ("N in {0..8,16,17,33,64,100} x {generate x4 forms (array, &, &mut, Box), map x4, fold x4, zip: nine stack receiver x argument forms + boxed x boxed, Clone (array, Box), Default, default_boxed} x element-type combinations over "
+             "{tracked 4/8/24-byte, zero-sized tracked, plain u32} (selecting the drop-aware and no-drop code paths). Closures log every call with its arguments. Oracle: the log is exactly (a[0]) (a[1]) ... once each ascending - for zip the pair "
+             "(a[i], b[i]) in that argument order, for fold a non-commutative accumulator threaded left to right - result element i is what call i returned, Clone/Default are called N times in index order, and nothing is left alive or dropped twice. "
+             "Non-trivial = N > 0."),
+    'exhaustive': True,
+    'exhaustive_scope': 'the listed finite product',
+    'assumptions': COMMON_ASSUME,
+}
+PROPS['C09'] = {
+    'level': 'exploration',
+    'technique': 'bounded exhaustive enumeration of (N, K, M, index, element size) for the sequence operations on the real code against the corresponding Vec operations, with ledger and address oracles',
+    'parts': [engine_part('sequence-ops', 'e_ops', 'C09', shards_quick=1)],
+    'rule': ("complete for N in 0..=8: append/pop_back/prepend/pop_front chain, split::<K> for every K <= N in owned, & and &mut forms, concat for every (N, M) with N+M <= 8, remove(i) and swap_remove(i) for every i in 0..=N+1 and usize::MAX; plus "
+             "N in {15,16,17,31,32,33,63,64,100,255,256,1023,1024} with the position lattice {0,1,N/2,N-1,N}; element types of size 0 (tracked ZST, ()), 1 (u8), 8 (tracked, u64), 24 (tracked, [u8;24]) and 4 (tracked). Oracle: results and removed values "
+             "equal Vec push/insert(0)/pop/remove(0)/split_at/extend/remove/swap_remove on the same identities; the ledger shows exactly-once ownership after every step; out-of-range remove/swap_remove raise the documented panic with every element "
+             "dropped once; by-reference split halves are (base, K) and (base + K*size, N-K) and a write at every index through the &mut halves appears at that index of the original. Non-trivial = N > 0."),
+    'exhaustive': True,
+    'exhaustive_scope': 'all (N, K, M, i) for N <= 8; lattice above',
+    'assumptions': COMMON_ASSUME + ["an over-read that is then discarded produces the right answer and is invisible to this oracle: the thorough tier repeats the enumeration under AddressSanitizer / Miri as per-execution monitors"],
+}
